@@ -79,6 +79,8 @@ def default_class(t, idx, clause):
     ev = t['events'][idx - 1] if 0 < idx <= len(t['events']) else {}
     if clause == 'P:SnapshotFaithful' and ev.get('allempty'):
         return 'snapshot of only empty files'
+    if ev.get('ctx'):
+        return ev['ctx']
     return 'any'
 
 
